@@ -153,6 +153,7 @@ func raceRun(t *testing.T, rng *rand.Rand, dir string) {
 	var sentMu sync.Mutex
 	sent := map[[2]uint32]map[Report]bool{}
 	regOK := 0
+	srvPosted := map[glow.PublicKey]bool{} // server key -> some post for it was a ban
 	workers := 8 + rng.IntN(40)
 	var wg sync.WaitGroup
 	start := make(chan struct{})
@@ -195,7 +196,11 @@ func raceRun(t *testing.T, rng *rand.Rand, dir string) {
 					sentMu.Unlock()
 					s.VerifHandleDatagram(r.Encode())
 				case 5:
-					post("/api/v1/authorized-servers", SignServer(gca, server.AuthorizedServer{PublicKey: Key(fmt.Sprintf("peer%d", gr.IntN(3))).Pub, Banned: gr.IntN(4) == 0, Location: n.Loc, HttpPort: n.HTTP}))
+					as := server.AuthorizedServer{PublicKey: Key(fmt.Sprintf("peer%d", gr.IntN(12))).Pub, Banned: gr.IntN(4) == 0, Location: n.Loc, HttpPort: n.HTTP}
+					sentMu.Lock()
+					srvPosted[as.PublicKey] = srvPosted[as.PublicKey] || as.Banned
+					sentMu.Unlock()
+					post("/api/v1/authorized-servers", SignServer(gca, as))
 				case 6:
 					post("/api/v1/equipment-migrate", SignMigration(gca, server.EquipmentMigration{Equipment: d.Key.Pub, NewGCA: Key("gcaNew").Pub, NewShortID: 7}))
 				case 7:
@@ -241,6 +246,21 @@ func raceRun(t *testing.T, rng *rand.Rand, dir string) {
 	}
 	if (registered && regOK > 0) || regOK > 1 {
 		fmt.Printf("RACE-MODE-VIOLATION C13.linear@registration %d registrations succeeded in one concurrent workload (already registered before: %v)\n", regOK, registered)
+	}
+	if registered {
+		// The server list is order independent: every posted key is listed
+		// once, banned iff one of the posts for it was a ban (all posts of a
+		// workload carry the same address).
+		listed := map[glow.PublicKey][]bool{}
+		for _, e := range s.VerifSnapshot(true).Servers {
+			listed[e.PublicKey] = append(listed[e.PublicKey], e.Banned)
+		}
+		for k, ban := range srvPosted {
+			if l := listed[k]; len(l) != 1 || l[0] != ban {
+				fmt.Printf("RACE-MODE-VIOLATION C13.linear@server-list after a concurrent workload server %s is listed %v (one flag per entry), the GCA's posts for it give exactly one entry with banned=%v in every sequential order\n", RoleOf(k), l, ban)
+				break
+			}
+		}
 	}
 	if strong {
 		snap := s.VerifSnapshot(true)
